@@ -18,7 +18,7 @@ fn gen_ref_library(r: &mut Rng, n: usize, chain: bool) -> Vec<(String, String)> 
     keys.iter()
         .enumerate()
         .map(|(i, k)| {
-            let dir = Key::from_file_name(k).parent();
+            let dir = crate::oracle::md::dir_of(k);
             let mut text = format!("# title {}\n\npara {} alpha\n", i, i);
             let nrefs = if chain { 1 } else { r.range(0, 3) };
             for j in 0..nrefs {
@@ -59,7 +59,7 @@ fn expected_words(lib: &HashMap<String, String>, key: &str, depth: u8) -> Vec<St
     // note's body expanded with depth-1; the oracle compares word multisets, the model compares structure
     fn body(lib: &HashMap<String, String>, key: &str, depth: u8, out: &mut Vec<String>) {
         let Some(text) = lib.get(key) else { return };
-        let dir = Key::from_file_name(key).parent();
+        let dir = crate::oracle::md::dir_of(key);
         for line in text.lines() {
             // containers: leading indentation, quote and list markers are not content
             let mut line = line.trim_start();
